@@ -879,7 +879,7 @@ func (ex *Exec) havocLvalue(st *State, env *SpecEnv, text string) {
 		ex.spec++
 		v := env.eval(pc.expr)
 		ex.spec--
-		t := pc.info.Types[pc.expr].Type
+		t := env.resolve(pc.info.Types[pc.expr].Type)
 		switch u := t.Underlying().(type) {
 		case *types.Map:
 			ex.havocMap(st, v.(*Term), u)
@@ -934,7 +934,7 @@ func (ex *Exec) havocLvalue(st *State, env *SpecEnv, text string) {
 	ex.spec++
 	addr := env.addrOf(pc.expr)
 	ex.spec--
-	t := pc.info.Types[pc.expr].Type
+	t := env.resolve(pc.info.Types[pc.expr].Type)
 	var fs []*Term
 	nv := freshVal(t, "mod", &fs)
 	ex.addFacts(nil, fs)
